@@ -51,7 +51,10 @@ static char *gtext;
 static int gkind; /* 0 none 1 text 2 jsgf */
 static char mode[32] = "stream";
 static long chunk = 4096;
-static int partials[256], npartial, early, dumpsen;
+static int partials[256], npartial, early, dumpsen, tmatskip;
+static char addw[16][2][256];
+static int naddw;
+static uint8 *tp_saved;
 
 static void out_flush(void) { fflush(stdout); }
 
@@ -67,6 +70,49 @@ static int load_audio(const char *path, long skip, long start, long n)
     fclose(f);
     naudio = got < 0 ? 0 : (size_t)got;
     return 0;
+}
+
+static void make_noise(uint64_t seed, long n, int amp)
+{
+    long i;
+    free(audio);
+    audio = (int16 *)calloc((size_t)n + 1, sizeof(int16));
+    for (i = 0; i < n; i++) {
+        int64_t v = 0;
+        int k;
+        for (k = 0; k < 4; k++) v += (int64_t)(vf_rand(&seed) % (uint64_t)(2 * amp + 1)) - amp;
+        audio[i] = (int16)(v / 2);
+    }
+    naudio = (size_t)n;
+}
+
+/* probe outside the NoSkip hypothesis: give every transition matrix skip transitions 0->2 and 1->exit */
+static void tmat_skip(int on)
+{
+    tmat_t *t = d->acmod->tmat;
+    int i, n = t->n_state, sz = t->n_tmat * n * (n + 1);
+    uint8 *flat = &t->tp[0][0][0];
+    if (n < 3) return;
+    if (on) {
+        if (!tp_saved) { tp_saved = (uint8 *)malloc((size_t)sz); memcpy(tp_saved, flat, (size_t)sz); }
+        for (i = 0; i < t->n_tmat; i++) { t->tp[i][0][2] = (uint8)on; t->tp[i][1][3] = (uint8)on; }
+    } else if (tp_saved) {
+        memcpy(flat, tp_saved, (size_t)sz);
+        free(tp_saved);
+        tp_saved = NULL;
+    }
+}
+
+static void print_tpx(void)
+{
+    tmat_t *t = d->acmod->tmat;
+    int i, j, k;
+    for (i = 0; i < t->n_tmat; i++) {
+        printf("TPX %d", i);
+        for (j = 0; j < t->n_state; j++)
+            for (k = 0; k <= t->n_state; k++) printf(" %d", t->tp[i][j][k]);
+        printf("\n");
+    }
 }
 
 static void print_model(void)
@@ -243,6 +289,7 @@ static void manual_second_pass(alignment_t *ref)
     while (d->acmod->output_frame < outfr) {
         int fr = d->acmod->output_frame;
         int16 const *sen;
+        if (fr >= rs->frame) { acmod_advance(d->acmod); continue; } /* as many frames as decoder_alignment stepped */
         if (search_module_step(sm, fr) < 0) { ok = 0; break; }
         sen = d->acmod->senone_scores;
         printf("SEN %d", fr);
@@ -372,6 +419,7 @@ static void request(const char *tag)
     int i;
     printf("REQ %s %s %d %d %d\n", caseid, tag, (int)d->acmod->output_frame, (int)d->acmod->n_feat_alloc,
            (int)d->acmod->grow_feat);
+    if (tmatskip) print_tpx();
     out_flush();
     nwids = 0;
     for (seg = decoder_seg_iter(d); seg; seg = seg_iter_next(seg)) {
@@ -432,14 +480,18 @@ static void run_case(void)
     size_t pos = 0;
     int k = 0, i, rv;
     if (ensure_decoder() < 0) { printf("ENDCASE %s\n", caseid); out_flush(); return; }
+    for (i = 0; i < naddw; i++)
+        if (dict_wordid(d->dict, addw[i][0]) < 0 && decoder_add_word(d, addw[i][0], addw[i][1], 1) < 0)
+            printf("error add-word %s\n", addw[i][0]);
+    if (tmatskip) tmat_skip(tmatskip);
     if (gkind == 1) rv = decoder_set_align_text(d, gtext);
     else if (gkind == 2) rv = decoder_set_jsgf_string(d, gtext);
     else rv = -1;
     printf("CASE %s grammar=%d mode=%s nsamp=%ld\n", caseid, rv, mode, (long)naudio);
     out_flush();
-    if (rv < 0) { printf("ENDCASE %s\n", caseid); out_flush(); return; }
+    if (rv < 0) { if (tmatskip) tmat_skip(0); printf("ENDCASE %s\n", caseid); out_flush(); return; }
     acmod_set_grow(d->acmod, strcmp(mode, "nogrow") != 0);
-    if (decoder_start_utt(d) < 0) { printf("error start-utt\nENDCASE %s\n", caseid); out_flush(); return; }
+    if (decoder_start_utt(d) < 0) { if (tmatskip) tmat_skip(0); printf("error start-utt\nENDCASE %s\n", caseid); out_flush(); return; }
     if (early) request("early");
     if (!strcmp(mode, "full")) {
         decoder_process_int16(d, audio, naudio, 0, 1);
@@ -460,6 +512,7 @@ static void run_case(void)
     }
     decoder_end_utt(d);
     request("final");
+    if (tmatskip) tmat_skip(0);
     printf("ENDCASE %s\n", caseid);
     out_flush();
 }
@@ -479,7 +532,7 @@ int main(int argc, char **argv)
         if (n == 0) continue;
         if (!strcmp(w[0], "case") && n >= 2) {
             snprintf(caseid, sizeof(caseid), "%s", w[1]);
-            ncfg = 0; npartial = 0; early = 0; dumpsen = 0; gkind = 0;
+            ncfg = 0; npartial = 0; early = 0; dumpsen = 0; gkind = 0; tmatskip = 0; naddw = 0;
             strcpy(mode, "stream"); chunk = 4096;
         } else if (!strcmp(w[0], "cfg") && n == 3 && ncfg < MAXCFG) {
             snprintf(cfgk[ncfg], 64, "%s", w[1]);
@@ -491,6 +544,16 @@ int main(int argc, char **argv)
             gkind = w[0][0] == 't' ? 1 : 2;
         } else if (!strcmp(w[0], "audio") && n == 5) {
             if (load_audio(w[1], atol(w[2]), atol(w[3]), atol(w[4])) < 0) printf("error audio %s\n", w[1]);
+        } else if (!strcmp(w[0], "noise") && n == 4) {
+            make_noise((uint64_t)strtoull(w[1], NULL, 10), atol(w[2]), atoi(w[3]));
+        } else if (!strcmp(w[0], "tmatskip") && n == 2) {
+            tmatskip = atoi(w[1]);
+        } else if (!strcmp(w[0], "addword") && n == 3 && naddw < 16) {
+            unsigned char *a = vf_parse_hex(w[1], &len), *b = vf_parse_hex(w[2], &len);
+            snprintf(addw[naddw][0], 256, "%s", (char *)a);
+            snprintf(addw[naddw][1], 256, "%s", (char *)b);
+            naddw++;
+            free(a); free(b);
         } else if (!strcmp(w[0], "mode") && n == 2) {
             snprintf(mode, sizeof(mode), "%s", w[1]);
         } else if (!strcmp(w[0], "chunk") && n == 2) {
